@@ -20,6 +20,16 @@ Streams
                dot labels, label sorting, from_networkx) is the model gio_dot_normalize / gio_from_nx / gio_bip_from_nx
   bad-format   formats that are not valid for the graph type
   cli          graph argument "<format> <file>", "<file>" (extension) and "save" of the command line
+Run first, as a corpus (notes/LARGE_STREAMS.md):
+  huge         more than 65536 / 131072 vertices or edges, a vertex of degree 30000, matrix rows and names of more than
+               65536 characters, by file name / extension / file object / StringIO.  The model's readers are quadratic:
+               the statement is checked directly (read back = written graph; the text, read token by token, describes it)
+  thresholds   vertex numbers, degrees, edge counts, name lengths at 15..1025 (gml / dot at 16, 17, 256, 257); reader texts
+  shapes       empty sides, isolated vertices, dense graphs, graph OBJECTS from every public constructor / generator /
+               conversion (CompleteBipartiteGraph overrides its views), file names with and without a usable extension
+               (autodetect), destinations without a name, graph names outside ASCII (also in a C-locale process)
+  history      one graph object edited through its API (edges in any order, removals, vertex count raised by several) and
+               written after each batch of edits; files read back and edited further
 """
 import io
 import itertools
@@ -601,40 +611,584 @@ def classify_reader(ctx, stream, text, ty, fmt, got, mod, extra=None, af=None):
 
 
 # --------------------------------------------------------------------------
-def run(ctx):
-    import_impl()
-    import cnfgen.graphs as G
-    quick = ctx.tier == 'quick'
-    rng = ctx.rng
-    has_dot = G.has_dot_library()
-    formats = G.supported_graph_formats()
-    ctx.note('has_dot_library=%s formats=%s' % (has_dot, formats))
+# thresholds / huge / shapes / history (notes/LARGE_STREAMS.md)
+# --------------------------------------------------------------------------
+THRESHOLDS = [15, 16, 17, 63, 64, 65, 127, 128, 129, 255, 256, 257, 258, 300, 1000, 1025]
 
-    run_primitives(ctx, quick)
 
-    # ---------------- roundtrip ----------------
-    graphs = []
-    for ty in TYPES:
-        for (n, r, es) in all_small_graphs(ty, quick):
-            graphs.append((ty, n, r, es, None, 'all<=4'))
-        for i in range(40 if quick else 400):
-            n, r, es = random_graph(rng, ty, 30)
-            graphs.append((ty, n, r, es, rng.choice(NAMES), 'random'))
-        # fixed cases the property names: isolated vertices, ten or more vertices
-        if ty == 'bipartite':
-            graphs.append((ty, 12, 11, [(2, 10), (12, 1), (11, 11)], 'G', 'fixed'))
-            graphs.append((ty, 0, 3, [], 'G', 'fixed'))
-            graphs.append((ty, 3, 0, [], 'G', 'fixed'))
+def threshold_graphs(quick):
+    """vertex numbers, degrees, edge counts and name lengths at the threshold values; the graphs stay small (the model's
+    readers are quadratic), every in-house format and, for a few sizes, gml and dot"""
+    out = []
+    for t in THRESHOLDS:
+        big = t > 300
+        # vertex numbers t-1, t, isolated vertices after them
+        out.append(('simple', t, 0, [(1, t), (t, t - 1), (2, t - 1)], 'G', 'vertex-number'))
+        out.append(('simple', t + 2, 0, [(t, 1), (3, t)], 'G', 'vertex-number'))
+        out.append(('digraph', t, 0, [(t, 1), (t - 1, t), (t, t), (1, t)], 'G', 'vertex-number'))
+        out.append(('dag', t, 0, [(1, t), (t - 1, t), (1, 2)], 'G', 'vertex-number'))
+        out.append(('bipartite', t, 3, [(t, 1), (t - 1, 3), (1, 2)], 'G', 'vertex-number'))
+        out.append(('bipartite', 3, t, [(1, t), (3, t - 1), (2, 1)], 'G', 'vertex-number'))
+        if not big:
+            out.append(('bipartite', t, t, [(t, t), (1, t), (t, 1), (t - 1, t - 1)], 'G', 'vertex-number'))
+        # a vertex of degree t (a long line in kthlist), t edges
+        out.append(('simple', t + 1, 0, [(t + 1, i) for i in range(1, t + 1)], 'star', 'degree'))
+        out.append(('digraph', t + 1, 0, [(i, 1) for i in range(2, t + 2)] + [(1, 1)], 'in-star', 'degree'))
+        out.append(('dag', t + 1, 0, [(i, t + 1) for i in range(1, t + 1)], 'in-star', 'degree'))
+        out.append(('bipartite', 2, t, [(1, v) for v in range(1, t + 1)] + [(2, t)], 'left-star', 'degree'))
+        out.append(('bipartite', t, 2, [(u, 2) for u in range(1, t + 1)], 'right-star', 'degree'))
+        out.append(('simple', t + 1, 0, [(i + 1, i) for i in range(t, 0, -1)], 'path, edges inserted in decreasing order', 'edge-count'))
+        # the length of the name
+        out.append(('simple', 3, 0, [(1, 3)], 'n' * t, 'name-length'))
+        out.append(('bipartite', 2, 2, [(1, 2)], 'a name ' + 'n' * (t - 7), 'name-length'))
+    for t in (4096,) if quick else (4096, 8192):      # the model is quadratic in the length of a line: longer names in run_huge
+        out.append(('simple', 3, 0, [(1, 3)], 'n' * t, 'name-length'))
+        out.append(('dag', 3, 0, [(1, 3)], 'n' * t, 'name-length'))
+    return out
+
+
+def threshold_texts(quick):
+    """[(type, format, text, kind)] reader inputs at the threshold sizes"""
+    out = []
+    for t in [x for x in THRESHOLDS if x <= 300 or not quick or x == 1025]:
+        out.append(('simple', 'kthlist', '%d\n%d : %d 0\n' % (t, t, t - 1), 'vertex n'))
+        out.append(('simple', 'kthlist', '%d\n%d : %d 0\n' % (t, t + 1, t - 1), 'vertex n+1'))
+        out.append(('simple', 'kthlist', '%d\n%d : %d 0\n' % (t, t - 1, t + 1), 'neighbour n+1'))
+        out.append(('simple', 'dimacs', 'p edge %d 1\ne %d %d\n' % (t, t, t - 1), 'vertex n'))
+        out.append(('simple', 'dimacs', 'p edge %d 1\ne %d %d\n' % (t, t + 1, 1), 'vertex n+1'))
+        out.append(('digraph', 'dimacs', 'p edge 3 %d\n%s' % (t, 'e 1 2\n' * t), 'the same edge t times'))
+        out.append(('simple', 'dimacs', 'p edge %d %d\n%s' % (t + 1, t, ''.join('e %d %d\n' % (i, i + 1) for i in range(1, t + 1))), 't edges'))
+        out.append(('simple', 'dimacs', 'p edge %d %d\n%s' % (t + 1, t - 1, ''.join('e %d %d\n' % (i, i + 1) for i in range(1, t + 1))), 't edges, t-1 declared'))
+        out.append(('simple', 'dimacs', 'p edge %d %d\n%s' % (t + 1, t + 1, ''.join('e %d %d\n' % (i, i + 1) for i in range(1, t + 1))), 't edges, t+1 declared'))
+        out.append(('bipartite', 'kthlist', '%d\n%d : %d 0\n' % (t + 3, t, t + 3), 'left vertex t'))
+        out.append(('bipartite', 'kthlist', '%d\n1 : %s 0\n' % (t + 1, ' '.join(str(v) for v in range(2, t + 2))), 'left vertex of degree t'))
+        out.append(('bipartite', 'matrix', '1 %d\n%s\n' % (t, ' '.join('1' if i % 3 == 0 else '0' for i in range(t))), 'row of t entries'))
+        out.append(('bipartite', 'matrix', '1 %d\n%s\n' % (t, ' '.join('1' for i in range(t - 1))), 'row of t-1 entries for t columns'))
+        out.append(('bipartite', 'matrix', '%d 1\n%s' % (t, '1\n0\n' * (t // 2) + '1\n' * (t % 2)), 't rows'))
+        out.append(('dag', 'kthlist', '%d\n%s' % (t, ''.join('%d : %d 0\n' % (i, i - 1) for i in range(2, t + 1))), 'path of t vertices'))
+        out.append(('simple', 'kthlist', '%s%d\n%s2 : 1 0\n' % ('c x\n' * t, 2, '\n' * t), 't comment lines, t blank lines'))
+        out.append(('simple', 'kthlist', '%s2\n2 :%s1 0\n' % (' ' * t, ' ' * t), 'runs of t blanks'))
+        out.append(('simple', 'dimacs', 'p edge %s2 1\ne 2 %s1\n' % ('0' * t, '0' * (t - 1)), 't leading zeros'))
+    return out
+
+
+def star_edges(centre, leaves):
+    return [(centre, v) for v in leaves]
+
+
+def direct_roundtrip(ctx, G, stream, label, ty, fmt, g, via, tmp):
+    """the statement of C14 on one large graph, without the model: write, read back, the same orders and edges; and the text,
+    read token by token by `described`, describes that graph"""
+    cg = canon(g)
+    inp = dict(graph=label, graph_type=ty, format=fmt, vertices=cg[2] + cg[3], edges=len(cg[4]), via=via)
+    ctx.count(stream, (label, ty, fmt, via), True, sample=inp)
+    ctx.tally(stream + ' via', via)
+    path = os.path.join(tmp, 'huge.' + fmt)
+    try:
+        if via == 'StringIO':
+            text = impl_write(G, g, ty, fmt)
+            back = impl_read(G, text, ty, fmt, limit=300)
         else:
-            graphs.append((ty, 12, 0, [(2, 10), (1, 12), (9, 11)], 'G', 'fixed'))
-            graphs.append((ty, 25, 0, [(3, 20)], 'isolated', 'fixed'))
+            if via == 'name':
+                G.writeGraph(g, path, ty, fmt)
+            elif via == 'name-by-extension':
+                G.writeGraph(g, path, ty)
+            else:
+                with open(path, 'w', encoding='utf-8') as f:
+                    G.writeGraph(g, f, ty, fmt)
+            with open(path, 'r', newline='', encoding='utf-8') as f:
+                text = f.read()
+            r = outcome(lambda: canon(G.readGraph(path, ty) if via == 'name-by-extension' else G.readGraph(path, ty, fmt)))
+            back = ('ok', r[1]) if r[0] == 'ok' else r
+    except Exception as e:  # noqa
+        ctx.disagreements_checked += 1
+        ctx.violation('counterexample', 'writeGraph raised %s on a large valid graph' % type(e).__name__,
+                      dict(input=inp, implementation=[type(e).__name__, str(e)[:160]]), True, site=fmt + '-writer', cls='raises-' + type(e).__name__)
+        return
+    lines = text.split('\n')
+    ctx.tally(stream + ' output lines', '>131072' if len(lines) > 131072 else '>65536' if len(lines) > 65536 else '<=65536')
+    ctx.tally(stream + ' longest line', '>131072' if max(map(len, lines)) > 131072 else '>65536' if max(map(len, lines)) > 65536 else '<=65536')
+    if back[0] != 'ok' or not same_graph(back[1], cg, names=False):
+        ctx.disagreements_checked += 1
+        why = back[1:] if back[0] != 'ok' else None
+        if why is None:
+            a, b = back[1], cg
+            why = ('orders %r, written %r' % (a[2:4], b[2:4]) if a[2:4] != b[2:4] else '%d edges read, %d written' % (len(a[4]), len(b[4])) if len(a[4]) != len(b[4])
+                   else 'edge %r read where %r was written' % next((x, y) for x, y in zip(a[4], b[4]) if x != y))
+        ctx.violation('counterexample', 'write then read in %s format does not return the same large %s graph: %s' % (fmt, ty, why),
+                      dict(input=inp, text_start=text[:300], text_end=text[-200:], read_back=list(back[:1]) + [str(back[1])[:300]]), True,
+                      site=fmt + '-roundtrip', cls='raises-' + back[1] if back[0] == 'exc' else 'graph-changed')
+        return
+    if fmt in INHOUSE and not consistent(text, ty, fmt, cg):
+        ctx.disagreements_checked += 1
+        ctx.violation('counterexample', 'the %s text written for a large %s graph does not describe it (independent token-level reading)' % (fmt, ty),
+                      dict(input=inp, text_start=text[:300], text_end=text[-200:]), True, site=fmt + '-writer', cls='text-differs-from-graph')
+
+
+def run_huge(ctx, G, quick, has_dot):
+    import time
+    t0 = time.time()
+    tmp = tempfile.mkdtemp(prefix='c14huge-')
+    seed = ctx.rng.randrange(1 << 30) | 1
+
+    def coprime_step(total):
+        import math
+        step = 1000003 + (seed % 1000) * 2
+        while math.gcd(step, total) != 1:
+            step += 2
+        return step
+
+    def sparse(ty, n, m):
+        """m distinct edges on n vertices: the pairs (u, v) are visited in the order p = i * step mod n*n, each once"""
+        def f():
+            g = G.Graph(n, 'large') if ty == 'simple' else G.DirectedGraph(n, 'large')
+            total = n * n
+            step = coprime_step(total)
+            k = i = 0
+            while k < m and i < total:
+                p = (i * step) % total
+                i += 1
+                u, v = 1 + p // n, 1 + p % n
+                if u == v:
+                    continue
+                if ty == 'dag' and u > v:
+                    u, v = v, u
+                before = g.number_of_edges()
+                g.add_edge(u, v)
+                k += g.number_of_edges() - before
+            return g
+        return f
+
+    def bip(L, R, m):
+        def f():
+            g = G.BipartiteGraph(L, R, 'large')
+            total = L * R
+            step = coprime_step(total)
+            for i in range(min(m, total)):
+                p = (i * step) % total
+                g.add_edge(1 + p // R, 1 + p % R)
+            return g
+        return f
+
+    def star(ty, d):
+        def f():
+            g = G.Graph(d + 3, 'star') if ty == 'simple' else G.DirectedGraph(d + 3, 'star')
+            for i in range(d, 0, -1):
+                if ty == 'simple':
+                    g.add_edge(d + 2, i)
+                elif ty == 'dag':
+                    g.add_edge(i, d + 2)
+                else:
+                    g.add_edge(i + 1 if i + 1 != 2 else d + 3, 2)
+            return g
+        return f
+
+    def named(ty, k):
+        def f():
+            g = mk_graph(G, ty, 4, 3 if ty == 'bipartite' else 0, [(1, 3), (2, 3)], 'N' * k)
+            return g
+        return f
+    if quick:
+        plan = [('70000 vertices, 140000 edges', 'simple', sparse('simple', 70000, 140000), [('kthlist', 'name'), ('dimacs', 'StringIO')]),
+                ('131073 vertices, 70000 increasing edges', 'dag', sparse('dag', 131073, 70000), [('dimacs', 'name-by-extension'), ('kthlist', 'fileobj')]),
+                ('40000 + 40000 vertices, 70000 edges', 'bipartite', bip(40000, 40000, 70000), [('kthlist', 'name-by-extension')]),
+                ('3 x 70000 matrix (rows of 140000 characters)', 'bipartite', bip(3, 70000, 1000), [('matrix', 'name')]),
+                ('a vertex of degree 30000', 'simple', star('simple', 30000), [('kthlist', 'fileobj')]),
+                ('a vertex of in-degree 30000', 'digraph', star('digraph', 30000), [('kthlist', 'StringIO')]),
+                ('name of 70000 characters', 'simple', named('simple', 70000), [('kthlist', 'name'), ('dimacs', 'fileobj')])]
+    else:
+        allv = ['StringIO', 'name', 'name-by-extension', 'fileobj']
+        plan = []
+        for ty in ('simple', 'digraph', 'dag'):
+            plan.append(('70000 vertices, 140000 edges', ty, sparse(ty, 70000, 140000), [(f, v) for f in ('kthlist', 'dimacs') for v in allv]))
+            plan.append(('131073 vertices, 70000 edges', ty, sparse(ty, 131073, 70000), [(f, v) for f in ('kthlist', 'dimacs') for v in allv[:2]]))
+            plan.append(('a vertex of (in-)degree 30000', ty, star(ty, 30000), [(f, v) for f in ('kthlist', 'dimacs') for v in allv]))
+            plan.append(('a vertex of (in-)degree 140000', ty, star(ty, 140000), [('kthlist', 'name'), ('kthlist', 'StringIO')]))
+            plan.append(('name of 70000 characters', ty, named(ty, 70000), [(f, v) for f in ('kthlist', 'dimacs') for v in allv]))
+            plan.append(('20000 vertices, 30000 edges', ty, sparse(ty, 20000, 30000), [('gml', 'name'), ('gml', 'StringIO')]))
+        plan.append(('40000 + 40000 vertices, 140000 edges', 'bipartite', bip(40000, 40000, 140000), [('kthlist', v) for v in allv]))
+        plan.append(('70000 + 3 vertices', 'bipartite', bip(70000, 3, 70000), [('kthlist', v) for v in allv] + [('matrix', 'name')]))
+        plan.append(('3 x 70000 matrix (rows of 140000 characters)', 'bipartite', bip(3, 70000, 1000), [('matrix', v) for v in allv] + [('kthlist', 'name')]))
+        plan.append(('300 x 300 matrix', 'bipartite', bip(300, 300, 30000), [('matrix', v) for v in allv] + [('gml', 'name')]))
+        plan.append(('name of 140000 characters', 'bipartite', named('bipartite', 140000), [('kthlist', v) for v in allv]))
+        if has_dot:
+            plan.append(('1500 vertices, 1500 edges', 'simple', sparse('simple', 1500, 1500), [('dot', 'name')]))
+    for label, ty, mk, todo in plan:
+        g = mk()
+        for fmt, via in todo:
+            direct_roundtrip(ctx, G, 'huge', label, ty, fmt, g, via, tmp)
+    for f in os.listdir(tmp):
+        os.unlink(os.path.join(tmp, f))
+    os.rmdir(tmp)
+    ctx.note('huge: %.0f s' % (time.time() - t0))
+
+
+def run_thresholds(ctx, G, quick, has_dot, formats):
+    import time
+    t0 = time.time()
+    graphs = threshold_graphs(quick)
+    inhouse = {ty: [f for f in formats[ty] if f in INHOUSE] for ty in formats}
+    run_roundtrip(ctx, G, graphs, has_dot, inhouse, quick, stream='thresholds')
+    # gml and dot (networkx / pydot) at a few of the sizes
+    small = [g for g in graphs if (g[1] + g[2]) in (16, 17, 18, 256, 257, 258, 259) and g[5] in ('vertex-number', 'degree')]
+    ext = {ty: [f for f in formats[ty] if f not in INHOUSE] for ty in formats}
+    run_roundtrip(ctx, G, small if not quick else small[::3], has_dot, ext, quick, stream='thresholds', gml_dot_all=True)
+    cases = threshold_texts(quick)
+    reps = ctx.model.batch([cmd('gio_read', has_dot, Sym(ty), Sym(fmt), t) for (ty, fmt, t, _k) in cases])
+    for (ty, fmt, t, kind), rep in zip(cases, reps):
+        ctx.count('thresholds-texts', (ty, fmt, t), True, sample=dict(graph_type=ty, format=fmt, kind=kind, text=t[:120]))
+        ctx.tally('thresholds text kind', kind)
+        if is_error(rep):
+            ctx.violation('correspondence', 'model error', dict(input=dict(text=t[:300], graph_type=ty, format=fmt), model=rep), False, site='model-error', cls='thresholds')
+            continue
+        classify_reader(ctx, 'thresholds-texts', t, ty, fmt, impl_read(G, t, ty, fmt), model_outcome(rep), dict(kind=kind))
+    ctx.note('thresholds: %.0f s' % (time.time() - t0))
+
+
+# --------------------------------------------------------------------------
+# shapes: rare graphs; file names that select (or merely resemble) a format; destinations; names outside ASCII
+# --------------------------------------------------------------------------
+GOOD_NAMES = ['g.kthlist', 'a.gml.kthlist', 'dir.dot/g.dimacs', 'g.dimacs', 'g.matrix', 'g.gml', 'x.y.z.kthlist', 'graph_kthlist.kthlist', 'sp ace.dimacs',
+              'α\xe9.kthlist']
+BAD_NAMES = ['graph_kthlist', 'kthlist', 'g.kthlist.bak', 'g.kthlistx', 'g.KTHLIST', 'dimacs', 'x_dimacs', 'g.dimacs~', 'noext', 'g.', 'gml', 'xgml',
+             'dir.kthlist/g', 'g.kthlist ', 'adjacency_matrix', 'g.txt']
+
+
+def name_format(name, ty, formats):
+    """the format `autodetect` must choose: the extension of the file name when it is a format of this graph type, else none (ValueError)"""
+    base = name.rsplit('/', 1)[-1]
+    if '.' not in base.lstrip('.'):
+        return None
+    ext = base.rsplit('.', 1)[1]
+    return ext if ext in formats[ty] else None
+
+
+def shape_graphs():
+    out = []
+    for t in (0, 1, 16, 257):
+        out.append(('bipartite', t, 0, [], 'no right side', 'empty-side'))
+        out.append(('bipartite', 0, t, [], 'no left side', 'empty-side'))
+        out.append(('simple', t, 0, [], 'isolated vertices only', 'isolated'))
+        out.append(('digraph', t, 0, [(v, v) for v in range(1, t + 1)], 'self loops only', 'self-loops'))
+        out.append(('dag', t, 0, [], 'isolated vertices only', 'isolated'))
+    k = 24
+    comp = [(u, v) for u in range(1, k + 1) for v in range(u + 1, k + 1)]
+    out.append(('simple', k, 0, [(v, u) for (u, v) in reversed(comp)], 'complete, edges inserted from the last to the first, reversed', 'dense'))
+    out.append(('dag', k, 0, list(reversed(comp)), 'transitive tournament', 'dense'))
+    out.append(('digraph', k, 0, [(u, v) for u in range(1, k + 1) for v in range(k, 0, -1)], 'complete with loops', 'dense'))
+    out.append(('bipartite', 9, 17, [(u, v) for u in range(9, 0, -1) for v in range(17, 0, -1)], 'complete bipartite, inserted backwards', 'dense'))
+    out.append(('bipartite', 1, 1, [(1, 1)], 'one edge', 'tiny'))
+    out.append(('simple', 2, 0, [(2, 1), (1, 2), (2, 1)], 'the same edge three times in both orientations', 'repeated-edge'))
+    out.append(('digraph', 2, 0, [(2, 1), (1, 2), (2, 1)], 'both orientations', 'repeated-edge'))
+    out.append(('simple', 40, 0, [(40, 1), (39, 40)], 'edges only at the last vertices', 'isolated'))
+    out.append(('simple', 5, 0, [(1, 2)], 'α \xe9 数 name outside ASCII', 'unicode-name'))
+    out.append(('bipartite', 2, 2, [(1, 2)], 'caf\xe9', 'unicode-name'))
+    out.append(('dag', 5, 0, [(1, 2)], '数', 'unicode-name'))
+    return out
+
+
+def constructor_graphs(G):
+    """graph OBJECTS as every public constructor / generator / conversion delivers them (subclasses that override the views,
+    objects built without add_edge, objects returned by a reader): [(type, ..., origin, thunk)]"""
+    import networkx
+    out = []
+
+    def add(ty, label, thunk):
+        out.append((ty, None, None, None, None, label, thunk))
+    for (L, R) in ((0, 0), (1, 1), (3, 2), (16, 17), (2, 257), (0, 3), (3, 0)):
+        add('bipartite', 'CompleteBipartiteGraph', lambda L=L, R=R: G.CompleteBipartiteGraph(L, R))
+
+    def cb_after_add():
+        g = G.CompleteBipartiteGraph(3, 4)
+        g.add_edge(1, 1)
+        return g
+    add('bipartite', 'CompleteBipartiteGraph', cb_after_add)
+    for n in (0, 1, 2, 5, 17):
+        add('simple', 'Graph.complete_graph', lambda n=n: G.Graph.complete_graph(n))
+        add('simple', 'Graph.star_graph', lambda n=n: G.Graph.star_graph(n))
+        add('simple', 'Graph.empty_graph', lambda n=n: G.Graph.empty_graph(n))
+    add('simple', 'Graph.null_graph', lambda: G.Graph.null_graph())
+    for h in (0, 1, 3):
+        for ty in ('dag', 'digraph'):
+            add(ty, 'dag_pyramid', lambda h=h: G.dag_pyramid(h))
+            add(ty, 'dag_complete_binary_tree', lambda h=h: G.dag_complete_binary_tree(h))
+            add(ty, 'dag_path', lambda h=h: G.dag_path(h + 9))
+    add('bipartite', 'bipartite_shift', lambda: G.bipartite_shift(5, 7, [0, 2]))
+    add('bipartite', 'bipartite_random_left_regular', lambda: G.bipartite_random_left_regular(4, 6, 2, seed=11))
+    add('bipartite', 'bipartite_random_m_edges', lambda: G.bipartite_random_m_edges(4, 5, 7, seed=12))
+    add('bipartite', 'bipartite_random_m_edges', lambda: G.bipartite_random_m_edges(4, 5, 19, seed=12))
+    add('bipartite', 'bipartite_random_regular', lambda: G.bipartite_random_regular(4, 4, 2, seed=13))
+    add('bipartite', 'bipartite_random', lambda: G.bipartite_random(4, 5, 0.5, seed=14))
+    add('simple', 'Graph.from_networkx', lambda: G.Graph.from_networkx(networkx.relabel_nodes(networkx.petersen_graph(), lambda v: v + 1)))
+    add('simple', 'Graph.from_networkx', lambda: G.Graph.from_networkx(networkx.relabel_nodes(networkx.path_graph(12), lambda v: 12 - v)))
+    add('digraph', 'DirectedGraph.from_networkx', lambda: G.DirectedGraph.from_networkx(networkx.relabel_nodes(networkx.gn_graph(12, seed=3), lambda v: v + 1)))
+
+    def bip_nx():
+        B = networkx.Graph()
+        B.add_nodes_from([1, 2, 3], bipartite=0)
+        B.add_nodes_from([4, 5], bipartite=1)
+        B.add_edges_from([(1, 4), (3, 5), (2, 4)])
+        return G.BipartiteGraph.from_networkx(B)
+    add('bipartite', 'BipartiteGraph.from_networkx', bip_nx)
+
+    def split():
+        g = G.Graph.complete_graph(5)
+        return G.split_random_edges(g, 3, seed=5) or g
+
+    def added():
+        g = G.Graph.empty_graph(6)
+        return G.add_random_missing_edges(g, 7, seed=6) or g
+
+    def added_b():
+        g = G.BipartiteGraph(3, 4)
+        return G.add_random_missing_edges(g, 5, seed=7) or g
+    add('simple', 'split_random_edges', split)
+    add('simple', 'add_random_missing_edges', added)
+    add('bipartite', 'add_random_missing_edges', added_b)
+    return out
+
+
+UNICODE_CHILD = r"""# -*- coding: utf-8 -*-
+import sys, os, json
+d = sys.argv[1]
+import cnfgen.graphs as G
+res = {}
+def canon(g):
+    if g.is_bipartite():
+        return [g.left_order(), g.right_order(), [list(e) for e in g.edges()]]
+    return [g.number_of_vertices(), 0, [list(e) for e in g.edges()]]
+for ty, fmt in (('simple', 'kthlist'), ('simple', 'dimacs'), ('simple', 'gml'), ('bipartite', 'kthlist'), ('dag', 'kthlist')):
+    if ty == 'bipartite':
+        g = G.BipartiteGraph(2, 3, 'α é 数')
+        g.add_edge(1, 3); g.add_edge(2, 1)
+    elif ty == 'simple':
+        g = G.Graph(4, 'α é 数')
+        g.add_edge(1, 3); g.add_edge(4, 2)
+    else:
+        g = G.DirectedGraph(4, 'α é 数')
+        g.add_edge(1, 3); g.add_edge(2, 4)
+    key = ty + '/' + fmt
+    try:
+        p = os.path.join(d, ty + '.' + fmt)
+        G.writeGraph(g, p, ty)                      # by name, format from the extension
+        with open(os.path.join(d, ty + '-obj.' + fmt), 'w', encoding='utf-8') as f:
+            G.writeGraph(g, f, ty, fmt)
+        res[key] = ['ok', canon(g), canon(G.readGraph(p, ty)), canon(G.readGraph(os.path.join(d, ty + '-obj.' + fmt), ty, fmt))]
+    except Exception as e:
+        res[key] = ['exc', type(e).__name__, str(e)[:120]]
+sys.stdout.write(json.dumps(res))
+"""
+
+
+def run_shapes(ctx, G, quick, has_dot):
+    import json
+    import subprocess
+    import tempfile as tf
+    import time
+    import lib
+    t0 = time.time()
+    formats = G.supported_graph_formats()
+    run_roundtrip(ctx, G, shape_graphs(), has_dot, formats, quick, stream='shapes', gml_dot_all=True)
+    run_roundtrip(ctx, G, constructor_graphs(G), has_dot, formats, quick, stream='shapes', gml_dot_all=True)
+    tmp = tempfile.mkdtemp(prefix='c14shapes-')
+    graphs = {'simple': mk_graph(G, 'simple', 12, 0, [(1, 12), (3, 2), (11, 10)], 'G'), 'digraph': mk_graph(G, 'digraph', 12, 0, [(12, 1), (3, 3), (10, 11)], 'G'),
+              'dag': mk_graph(G, 'dag', 12, 0, [(1, 12), (2, 3), (10, 11)], 'G'), 'bipartite': mk_graph(G, 'bipartite', 11, 12, [(11, 12), (1, 10), (2, 1)], 'G')}
+    # ---- file names and autodetect: by name, and through a file object that carries the name
+    for ty, g in graphs.items():
+        cg = canon(g)
+        for nm in GOOD_NAMES + BAD_NAMES:
+            want = name_format(nm, ty, formats)
+            if want == 'dot' and not has_dot:
+                continue
+            p = os.path.join(tmp, ty, nm)
+            os.makedirs(os.path.dirname(p), exist_ok=True)
+            for how in ('name', 'file object'):
+                inp = dict(graph_type=ty, file_name=nm, how=how, graph=cg, documented_format=want)
+                ctx.count('shapes-file-name', (ty, nm, how), True, sample=inp)
+                ctx.tally('shapes file name', 'extension is a format of the type' if want else 'no usable extension')
+                if os.path.exists(p):
+                    os.unlink(p)
+
+                def write():
+                    if how == 'name':
+                        G.writeGraph(g, p, ty)
+                    else:
+                        with open(p, 'w', encoding='utf-8') as f:
+                            G.writeGraph(g, f, ty)
+                w = outcome(write)
+                if want is None:
+                    if not (w[0] == 'exc' and w[1] == 'ValueError'):
+                        ctx.disagreements_checked += 1
+                        ctx.violation('counterexample', 'writeGraph with the file name %r (no extension that is a format of %s graphs) %s; documented: the format '
+                                      'is autodetected from the file name EXTENSION, else ValueError' % (nm, ty, 'raised ' + w[1] if w[0] == 'exc' else 'wrote a file'),
+                                      dict(input=inp, implementation=[str(x)[:160] for x in w[:3]], written=open(p).read()[:200] if os.path.exists(p) and w[0] == 'ok' else None),
+                                      True, site='autodetect', cls='format-guessed-without-extension' if w[0] == 'ok' else 'raises-' + w[1])
+                    # reading such a name: write the file with an explicit format first
+                    G.writeGraph(g, p, ty, 'kthlist')
+                    r = outcome(lambda: canon(G.readGraph(p, ty)))
+                    if not (r[0] == 'exc' and r[1] == 'ValueError'):
+                        ctx.disagreements_checked += 1
+                        ctx.violation('counterexample', 'readGraph with the file name %r (no extension that is a format of %s graphs) %s' %
+                                      (nm, ty, 'raised ' + r[1] if r[0] == 'exc' else 'read a graph'), dict(input=inp, implementation=[str(x)[:160] for x in r[:3]]),
+                                      True, site='autodetect', cls='format-guessed-without-extension' if r[0] == 'ok' else 'raises-' + r[1])
+                    continue
+                if w[0] != 'ok':
+                    ctx.disagreements_checked += 1
+                    ctx.violation('counterexample', 'writeGraph with the file name %r raised %s' % (nm, w[1]), dict(input=inp, implementation=list(w[1:])), True,
+                                  site='autodetect', cls='raises-' + w[1])
+                    continue
+                with open(p, encoding='utf-8') as f:
+                    text = f.read()
+                # the file is in the format of its extension: the reader of that format gives the graph back, and so does autodetect
+                b1 = impl_read(G, text, ty, want)
+                b2 = outcome(lambda: canon(G.readGraph(p, ty)))
+                if b1[0] != 'ok' or not same_graph(b1[1], cg, names=False) or b2[0] != 'ok' or not same_graph(b2[1], cg, names=False):
+                    ctx.disagreements_checked += 1
+                    ctx.violation('counterexample', 'the file %r written by writeGraph (format from the extension) is not a %s file of the graph' % (nm, want),
+                                  dict(input=inp, text=text[:300], read_with_explicit_format=[str(x)[:200] for x in b1[:2]], autodetect=[str(x)[:200] for x in b2[:2]]),
+                                  True, site='autodetect', cls='wrong-format')
+    # ---- destinations without a usable name, autodetect: documented ValueError ("specify the format manually")
+    g = graphs['simple']
+    for label, mk in (('StringIO', io.StringIO), ('tempfile.TemporaryFile (name is a descriptor number)', lambda: tf.TemporaryFile('w+')),
+                      ('tempfile.SpooledTemporaryFile (name is None)', lambda: tf.SpooledTemporaryFile(mode='w+'))):
+        for fmt in ('autodetect', 'kthlist'):
+            f = mk()
+            w = outcome(lambda: G.writeGraph(g, f, 'simple', fmt))
+            f.seek(0)
+            r = outcome(lambda: canon(G.readGraph(f, 'simple', fmt)))
+            inp = dict(destination=label, file_format=fmt, graph_type='simple', graph=canon(g))
+            ctx.count('shapes-destination', (label, fmt), True, sample=inp)
+            if fmt == 'autodetect':
+                for what, o in (('writeGraph', w), ('readGraph', r)):
+                    if not (o[0] == 'exc' and o[1] == 'ValueError'):
+                        ctx.disagreements_checked += 1
+                        ctx.violation('counterexample', '%s on <%s> without a format %s; documented: ValueError (the format cannot be guessed)' %
+                                      (what, label, 'raised ' + o[1] if o[0] == 'exc' else 'succeeded'), dict(input=inp, implementation=[str(x)[:160] for x in o[:3]]),
+                                      True, site='autodetect', cls='file-object-name-not-a-string' if o[0] == 'exc' and o[1] == 'TypeError' else 'no-name-accepted')
+            elif w[0] != 'ok' or r[0] != 'ok' or not same_graph(r[1], canon(g), names=False):
+                ctx.disagreements_checked += 1
+                ctx.violation('counterexample', 'write then read through <%s> with an explicit format fails' % label,
+                              dict(input=inp, write=[str(x)[:160] for x in w[:3]], read=[str(x)[:160] for x in r[:3]]), True, site='kthlist-roundtrip', cls='destination')
+    # ---- a graph name outside ASCII, files written and read by name in a process whose locale is / is not UTF-8
+    script = os.path.join(tmp, 'child.py')
+    with open(script, 'w', encoding='utf-8') as f:
+        f.write(UNICODE_CHILD)
+    for en, extra in (('default', {}), ('C locale, UTF-8 mode off', {'LC_ALL': 'C', 'LANG': 'C', 'PYTHONUTF8': '0', 'PYTHONCOERCECLOCALE': '0'})):
+        d = os.path.join(tmp, 'u%d' % len(extra))
+        os.makedirs(d)
+        env = dict(os.environ, PYTHONPATH=lib.REPO, CNFGEN_VERIF='1')
+        env.update(extra)
+        r = subprocess.run([lib.PY, '-W', 'ignore', script, d], cwd=lib.REPO, env=env, stdout=subprocess.PIPE, stderr=subprocess.PIPE, timeout=300)
+        try:
+            res = json.loads(r.stdout.decode('utf-8'))
+        except Exception:  # noqa
+            res = {}
+            ctx.violation('counterexample', 'the process writing graphs with a name outside ASCII (%s) died' % en,
+                          dict(input=dict(environment=en), implementation=[r.returncode, r.stderr.decode('utf-8', 'replace')[-300:]]), True, site='unicode-name', cls='process')
+        for key, v in res.items():
+            inp = dict(graph_name='α \xe9 数', case=key, environment=en)
+            ctx.count('shapes-unicode-process', (key, en), True, sample=inp)
+            if v[0] != 'ok' or v[2] != v[1] or v[3] != v[1]:
+                ctx.disagreements_checked += 1
+                ctx.violation('counterexample', 'a graph whose name is outside ASCII does not survive writeGraph / readGraph by file name (%s, process with %s)' % (key, en),
+                              dict(input=inp, implementation=v), True, site='unicode-name', cls='raises-' + v[1] if v[0] == 'exc' else 'graph-changed')
+                continue
+            ty, fmt = key.split('/')
+            for fn in (ty + '.' + fmt, ty + '-obj.' + fmt):
+                try:
+                    with open(os.path.join(d, fn), 'rb') as f:
+                        f.read().decode('utf-8')
+                except UnicodeDecodeError:
+                    ctx.violation('counterexample', 'the graph file %s written by a process with %s is not UTF-8 (documented: written in UTF-8)' % (fn, en),
+                                  dict(input=inp), True, site='unicode-name', cls='file-encoding')
+    import shutil
+    shutil.rmtree(tmp, ignore_errors=True)
+    ctx.note('shapes: %.0f s' % (time.time() - t0))
+
+
+# --------------------------------------------------------------------------
+# history: ONE graph object edited through its public API between two writes (edges added in any order, removed, the vertex
+# count raised by several units, a file read and the returned object edited), each state written in every in-house format
+# --------------------------------------------------------------------------
+def run_history(ctx, G, quick, has_dot):
+    import random
+    import time
+    t0 = time.time()
+    formats = G.supported_graph_formats()
+    inhouse = {ty: [f for f in formats[ty] if f in INHOUSE] for ty in formats}
+    items = []
+    for run_no in range(24 if quick else 300):
+        r = random.Random(ctx.rng.randrange(1 << 30))
+        ty = TYPES[run_no % 4]
+        n0 = r.choice([0, 1, 3, 8, 14])
+        state = dict(g=mk_graph(G, ty, n0, r.choice([0, 2, 9]) if ty == 'bipartite' else 0, [], r.choice(['H', 'history %d' % run_no, None])), log=[])
+
+        def step(state=state, r=r, ty=ty):
+            g = state['g']
+            for _ in range(r.randint(1, 6)):
+                if ty == 'bipartite':
+                    L, R = g.left_order(), g.right_order()
+                    op = r.choice(['add', 'add', 'add-many', 'reread'])
+                else:
+                    L = R = g.number_of_vertices()
+                    op = r.choice(['add', 'add', 'add-many', 'remove', 'raise', 'raise', 'raise-to-threshold', 'reread'] if ty == 'simple'
+                                  else ['add', 'add', 'add-many', 'reread'])
+                if op == 'add' and L and R:
+                    u, v = r.randint(1, L), r.randint(1, R)
+                    if ty == 'dag' and u >= v or ty == 'simple' and u == v:
+                        continue
+                    g.add_edge(u, v)
+                    state['log'].append('add_edge(%d,%d)' % (u, v))
+                elif op == 'add-many' and L and R:
+                    es = [(r.randint(1, L), r.randint(1, R)) for _ in range(r.randint(2, 9))]
+                    es = [(u, v) for u, v in es if not (ty == 'dag' and u >= v or ty == 'simple' and u == v)]
+                    g.add_edges_from(es)
+                    state['log'].append('add_edges_from(%r)' % (es,))
+                elif op == 'remove':
+                    es = list(g.edges())
+                    if es:
+                        u, v = r.choice(es)
+                        if r.random() < 0.5:
+                            u, v = v, u
+                        g.remove_edge(u, v)
+                        state['log'].append('remove_edge(%d,%d)' % (u, v))
+                elif op == 'raise':
+                    k = r.choice([2, 3, 5])
+                    g.update_vertex_number(L + k)
+                    state['log'].append('update_vertex_number(+%d)' % k)
+                elif op == 'raise-to-threshold':
+                    t = r.choice([x for x in THRESHOLDS[:10] if x > L] or [L + 2])
+                    g.update_vertex_number(t)
+                    state['log'].append('update_vertex_number(%d)' % t)
+                elif op == 'reread':
+                    fmt = r.choice(inhouse[ty])
+                    g = state['g'] = G.readGraph(io.StringIO(impl_write(G, g, ty, fmt)), ty, fmt)
+                    state['log'].append('written as %s and read back; the object read is edited from here on' % fmt)
+            ctx.tally('history operations before a write', str(len(state['log'])) if len(state['log']) < 10 else '>=10')
+            return state['g']
+        for _ in range(r.randint(2, 5)):
+            items.append((ty, None, None, None, None, 'history', step))
+    run_roundtrip(ctx, G, items, has_dot, inhouse, quick, stream='history')
+    ctx.note('history: %.0f s' % (time.time() - t0))
+
+
+# --------------------------------------------------------------------------
+def run_roundtrip(ctx, G, graphs, has_dot, formats, quick, stream='roundtrip', budget0=None, gml_dot_all=False):
+    """graphs: [(type, n, r, edges, name, origin)] or [(type, None, None, None, None, origin, thunk)] where thunk() returns the
+    graph object to write NOW (history stream: the same object comes back, edited).  Returns the jobs (type, format, graph, text, read back)."""
+    rng = ctx.rng
     jobs = []     # (ty, fmt, n, r, name, text, got_back, cg)
     reqs = []
-    budget0 = 40 if quick else 400
+    if budget0 is None:
+        budget0 = 40 if quick else 400
     gml_dot_budget = {(ty, f): budget0 for ty in TYPES for f in ('gml', 'dot')}
-    for (ty, n, r, es, name, origin) in graphs:
+    for item in graphs:
+        (ty, n, r, es, name, origin) = item[:6]
         try:
-            g = mk_graph(G, ty, n, r, es, name)
+            g = item[6]() if len(item) > 6 else mk_graph(G, ty, n, r, es, name)
+            if len(item) > 6:
+                n, r = (g.left_order(), g.right_order()) if g.is_bipartite() else (g.number_of_vertices(), 0)
+                name = g.name
         except Exception as e:  # noqa
             ctx.violation('counterexample', 'building a valid graph raised %s' % type(e).__name__,
                           dict(input=dict(graph_type=ty, n=n, r=r, edges=es)), True, site='graph-object', cls='raises-' + type(e).__name__)
@@ -642,19 +1196,19 @@ def run(ctx):
         cg = canon(g)
         for fmt in formats[ty]:
             if fmt in ('gml', 'dot'):
-                if origin == 'all<=4' and (n + r) < 3:
+                if gml_dot_all or (origin == 'all<=4' and (n + r) < 3):
                     pass
                 elif origin == 'all<=4' and rng.random() < (0.9 if quick else 0.5):
                     continue
-                if gml_dot_budget[(ty, fmt)] <= 0 and origin != 'fixed':
+                if gml_dot_budget[(ty, fmt)] <= 0 and origin != 'fixed' and not gml_dot_all:
                     continue
                 gml_dot_budget[(ty, fmt)] -= 1
-            ctx.tally('roundtrip format', '%s/%s' % (ty, fmt))
-            ctx.tally('roundtrip vertices', '>=10' if (n + r) >= 10 else str(n + r))
-            ctx.tally('roundtrip origin', origin)
+            ctx.tally(stream + ' format', '%s/%s' % (ty, fmt))
+            ctx.tally(stream + ' vertices', '>=10' if (n + r) >= 10 else str(n + r))
+            ctx.tally(stream + ' origin', origin)
             w = outcome(impl_write, G, g, ty, fmt)
             if w[0] != 'ok':
-                ctx.count('roundtrip', (ty, fmt, n, r, tuple(map(tuple, cg[4])), name), n + r > 0)
+                ctx.count(stream, (ty, fmt, n, r, tuple(map(tuple, cg[4])), name), n + r > 0)
                 ctx.violation('counterexample', 'writeGraph raised %s on a valid graph' % w[1],
                               dict(input=dict(graph=cg, graph_type=ty, format=fmt), implementation=list(w[1:])), True,
                               site=fmt + '-writer', cls='raises-' + w[1])
@@ -662,25 +1216,28 @@ def run(ctx):
             text = w[1]
             back = impl_read(G, text, ty, fmt)
             jobs.append((ty, fmt, cg, text, back))
-            if fmt in INHOUSE:
+            mname = cg[1] if latin1(cg[1] or '') else 'G'       # names are not compared for gml / dot
+            if fmt in INHOUSE and not latin1(cg[1] or ''):
+                reqs += [cmd('gt_print', 0), cmd('gt_print', 0)]      # a name outside latin-1 is outside the model: round trip only
+            elif fmt in INHOUSE:
                 reqs.append(cmd('gio_write', has_dot, Sym(ty), Sym(fmt), [Sym(cg[0]), cg[1], cg[2], cg[3], cg[4]]))
                 reqs.append(cmd('gio_read', has_dot, Sym(ty), Sym(fmt), text) if latin1(text) else cmd('gt_print', 0))
             elif ty == 'bipartite':
                 nodes = [[str(i), 0] for i in range(1, cg[2] + 1)] + [[str(i), 1] for i in range(cg[2] + 1, cg[2] + cg[3] + 1)]
                 bes = [[str(u), str(v + cg[2])] for u, v in cg[4]]
                 # gml: from_networkx on the labels as they are; dot: after the int() relabelling of readGraph
-                reqs.append(cmd('gio_bip_from_nx_str', cg[1], nodes, bes) if fmt == 'gml' else cmd('gio_dot_bip_norm', cg[1], nodes, bes))
+                reqs.append(cmd('gio_bip_from_nx_str', mname, nodes, bes) if fmt == 'gml' else cmd('gio_dot_bip_norm', mname, nodes, bes))
                 reqs.append(cmd('gt_print', 0))
             else:
-                reqs.append(cmd('gio_' + fmt, [Sym(cg[0]), cg[1], cg[2], cg[3], cg[4]]))
+                reqs.append(cmd('gio_' + fmt, [Sym(cg[0]), mname, cg[2], cg[3], cg[4]]))
                 # the label rule of the code as found (D9), to recognise a lost repair
-                reqs.append(cmd('gio_dot_as_found', [Sym(cg[0]), cg[1], cg[2], cg[3], cg[4]]) if fmt == 'dot' else cmd('gt_print', 0))
+                reqs.append(cmd('gio_dot_as_found', [Sym(cg[0]), mname, cg[2], cg[3], cg[4]]) if fmt == 'dot' else cmd('gt_print', 0))
     reps = ctx.model.batch(reqs)
     for k, (ty, fmt, cg, text, back) in enumerate(jobs):
         r1, r2 = reps[2 * k], reps[2 * k + 1]
         key = (ty, fmt, cg[2], cg[3], tuple(map(tuple, cg[4])), cg[1])
-        ctx.count('roundtrip', key, cg[2] + cg[3] > 0, sample=dict(graph_type=ty, format=fmt, graph=cg, text=text[:200]))
-        inp = dict(graph=cg, graph_type=ty, format=fmt, text=text)
+        ctx.count(stream, key, cg[2] + cg[3] > 0, sample=dict(graph_type=ty, format=fmt, graph=cg if len(cg[4]) <= 40 else cg[:4] + ['%d edges' % len(cg[4])], text=text[:200]))
+        inp = dict(graph=cg if len(cg[4]) <= 200 else cg[:4] + [cg[4][:50] + ['... %d edges' % len(cg[4])]], graph_type=ty, format=fmt, text=text if len(text) <= 4000 else text[:2000] + '\n... (%d characters) ...\n' % len(text) + text[-500:])
         if is_error(r1) or is_error(r2):
             ctx.violation('correspondence', 'model error', dict(input=inp, model=[r1, r2]), False, site='model-error', cls='roundtrip')
             continue
@@ -697,7 +1254,9 @@ def run(ctx):
             ctx.violation('counterexample', 'write then read in %s format does not return the same %s graph' % (fmt, ty),
                           dict(input=inp, read_back=list(back), agrees_with_label_sorting_as_found=as_found), True,
                           site=fmt + '-roundtrip', cls=cls)
-        if fmt in INHOUSE:
+        if fmt in INHOUSE and not latin1(cg[1] or ''):
+            ctx.tally(stream + ' outside the model', 'graph name outside latin-1')
+        elif fmt in INHOUSE:
             # (b) same text
             if r1[0] != 'ok' or r1[1] != text:
                 ctx.disagreements_checked += 1
@@ -722,6 +1281,44 @@ def run(ctx):
                 ctx.disagreements_checked += 1
                 ctx.violation('correspondence', 'graph read back from %s differs from the model of label sorting + from_networkx' % fmt,
                               dict(input=inp, implementation=list(back), model=list(mod)), False, site=fmt + '-roundtrip', cls='model-differs')
+    return jobs
+
+
+# --------------------------------------------------------------------------
+def run(ctx):
+    import_impl()
+    import cnfgen.graphs as G
+    quick = ctx.tier == 'quick'
+    rng = ctx.rng
+    has_dot = G.has_dot_library()
+    formats = G.supported_graph_formats()
+    ctx.note('has_dot_library=%s formats=%s' % (has_dot, formats))
+
+    # the large cases first, as a corpus (notes/LARGE_STREAMS.md)
+    run_huge(ctx, G, quick, has_dot)
+    run_thresholds(ctx, G, quick, has_dot, formats)
+    run_shapes(ctx, G, quick, has_dot)
+    run_history(ctx, G, quick, has_dot)
+
+    run_primitives(ctx, quick)
+
+    # ---------------- roundtrip ----------------
+    graphs = []
+    for ty in TYPES:
+        for (n, r, es) in all_small_graphs(ty, quick):
+            graphs.append((ty, n, r, es, None, 'all<=4'))
+        for i in range(40 if quick else 400):
+            n, r, es = random_graph(rng, ty, 30)
+            graphs.append((ty, n, r, es, rng.choice(NAMES), 'random'))
+        # fixed cases the property names: isolated vertices, ten or more vertices
+        if ty == 'bipartite':
+            graphs.append((ty, 12, 11, [(2, 10), (12, 1), (11, 11)], 'G', 'fixed'))
+            graphs.append((ty, 0, 3, [], 'G', 'fixed'))
+            graphs.append((ty, 3, 0, [], 'G', 'fixed'))
+        else:
+            graphs.append((ty, 12, 0, [(2, 10), (1, 12), (9, 11)], 'G', 'fixed'))
+            graphs.append((ty, 25, 0, [(3, 20)], 'isolated', 'fixed'))
+    jobs = run_roundtrip(ctx, G, graphs, has_dot, formats, quick)
 
     # ---------------- mutation and random texts ----------------
     base = [j for j in jobs if j[1] in INHOUSE and latin1(j[3])]
